@@ -398,5 +398,5 @@ def c05_r5(ctx):
     ctx.ob(f, n_sites >= 2, "replace and skip_to_quality call sites found", detail="%d" % n_sites)
     # self.matcher rebound with the replacement
     rebound = any(isinstance(st, ast.Assign) and any(norm.canon(t) == "self.matcher" for t in st.targets)
-                  and any(norm.call_name(c) == "replace" for c in norm.calls_in(st.value)) for st in ast.walk(f.node))
+                  and any(norm.call_name(c) == "replace" for c in norm.calls_in(norm.inline_defs(st.value, f.node))) for st in ast.walk(f.node))
     ctx.ob(f, rebound, "self.matcher is rebound to the result of replace()")
